@@ -9,6 +9,7 @@ import (
 	"time"
 
 	"verif/internal/check"
+	"verif/internal/e2"
 	"verif/internal/e4"
 	"verif/internal/sut"
 )
@@ -150,6 +151,30 @@ func partStalls(c *check.Ctx, a *acc) {
 		}
 		samples = append(samples, map[string]any{"engine": "E4 stall", "trial": out.Desc, "relays_towards_staller": out.RelaysTowards, "sender_blocked_meanwhile": out.SenderBlocked, "staller_disconnected": out.StallerEnded})
 	})
+	// the stalled peer x leaving member x frame tick wedge (design G13), free-running
+	nLeave := c.Pick(2, 8)
+	parallel(nLeave, 4, func(i int) {
+		p, err := c.WS.StartLab(bin, sut.LabOpts{Idle: 2 * time.Minute, Frame: 3 * time.Millisecond, Name: "stallleave"})
+		if err != nil {
+			c.Inconc(err.Error())
+			return
+		}
+		out := e4.StallLeaveTrial(p, 2*time.Second)
+		p.Kill()
+		mu.Lock()
+		defer mu.Unlock()
+		done++
+		if out.StallerEnded {
+			ended++
+		}
+		if out.Inconclusive != "" {
+			c.Inconc(out.Inconclusive)
+		}
+		for _, f := range out.Findings {
+			c.Report(f)
+		}
+		samples = append(samples, map[string]any{"engine": "E4 stall", "trial": out.Desc, "relays_towards_staller": out.RelaysTowards, "staller_disconnected": out.StallerEnded})
+	})
 	c.Coverage["stall_trials"] = done
 	c.Coverage["stall_trials_staller_disconnected_by_idle_timeout"] = ended
 	c.Coverage["stall_trials_sender_blocked_while_peer_stalled"] = blocked
@@ -163,6 +188,7 @@ func init() {
 		partFaults(c, a)
 		partBursts(c, a)
 		partStalls(c, a)
+		partGated(c, a, []func(*sut.Proc) *e2.Result{e2.G13FrameWorkerVsLeaver}, 1)
 		return a.finish(c)
 	}
 }
